@@ -1,3 +1,4 @@
+#![cfg_attr(feature = "pattern", feature(pattern))]
 //! Correspondence harness for the regress verification framework.
 //! Built with RUSTFLAGS="--cfg regress_verif" against /repo's working tree.
 mod api;
@@ -5,6 +6,8 @@ mod cpsops;
 mod dump;
 mod gen;
 mod specgen;
+#[cfg(feature = "pattern")]
+mod searcher;
 
 use dump::*;
 use gen::*;
@@ -340,6 +343,8 @@ fn main() {
         Some("cps") => cpsops::cmd_cps(&args[2..]),
         Some("fold") => cpsops::cmd_fold(&args[2..]),
         Some("props") => cpsops::cmd_props(&args[2..]),
+        #[cfg(feature = "pattern")]
+        Some("searcher") => searcher::cmd_searcher(&args[2..]),
         _ => {
             eprintln!("usage: rvharness exec <seed> <npatterns> <nhays> <budget> [corpus]");
             std::process::exit(2);
